@@ -36,7 +36,10 @@ def check_swap(ctx):
     params = [a.arg for a in fn.args.args]
     left_, right_ = params[0], params[1]
     LEFT, RIGHT = Atom("left"), Atom("right")
-    cases = {"|left|=0": Facts().with_eq(LEFT.length, 0), "|left|=1": Facts().with_eq(LEFT.length, 1), "|left|>=2": Facts([LEFT.length - 2])}
+    cases = {}
+    for ln, lf in (("|left|=0", Facts().with_eq(LEFT.length, 0)), ("|left|=1", Facts().with_eq(LEFT.length, 1)), ("|left|>=2", Facts([LEFT.length - 2]))):
+        cases[ln + ",|right|=0"] = lf.with_eq(RIGHT.length, 0)
+        cases[ln + ",|right|>=1"] = lf.extend(RIGHT.length - 1)
     for cname, facts in cases.items():
         ev = Ev10(facts, q)
         built = {}
@@ -65,6 +68,11 @@ def check_swap(ctx):
                 if built["layers"] is not None:
                     probs.append(("base-case-scan", "layers passed", "the base case goes through the scanning constructor"))
                 n, i = RIGHT.length, Lin.var("i")
+                if ev.facts.zero(n):
+                    # no wire to cross: the scanned diagram has no boxes at all
+                    if not (ev.facts.zero(built["boxes"].length) and ev.facts.zero(built["offsets"].length)):
+                        probs.append(("base-case-count", "%r boxes / %r offsets" % (built["boxes"].length, built["offsets"].length), "none (|right| = 0)"))
+                    raise StopIteration
                 f2 = ev.facts.extend(i, n - i - 1)
                 ev.facts = f2
                 box_i, off_i = built["boxes"].item(i, f2), built["offsets"].item(i, f2)
@@ -78,6 +86,8 @@ def check_swap(ctx):
                     probs.append(("base-case-row", after, rj))
                 if not f2.eq(built["boxes"].length, n) or not f2.eq(built["offsets"].length, n):
                     probs.append(("base-case-count", "%r boxes / %r offsets" % (built["boxes"].length, built["offsets"].length), "|right|"))
+        except StopIteration:
+            pass
         except Unlocatable as e:
             probs.append(("slice", str(e), "a locatable boundary"))
         except (Unsupported, Undecided) as e:
@@ -264,6 +274,15 @@ def check_factories(ctx):
             a = [x.arg for x in fn.args.args]
             pos = [ast.unparse(x) for x in c.args]
             ctx.ob("R10.4", "%s.%s:args" % (k.q, meth), pos == a[:len(pos)], found=pos, required=a[:len(pos)], mod=k.mod, node=c, sig="args")
+            # a parameter may only be re-bound to an upgrade of itself (X if isinstance(X, K) else K(X)) or to a default when it is None
+            for st in fn.body:
+                if isinstance(st, ast.Assign) and isinstance(st.targets[0], ast.Name) and st.targets[0].id in a and st.lineno < c.lineno:
+                    x = st.targets[0].id
+                    used = {n.id for n in ast.walk(st.value) if isinstance(n, ast.Name) and n.id in a}
+                    if meth == "permutation" and x == a[1]:
+                        continue        # default domain, checked below
+                    ctx.ob("R10.4", "%s.%s:rebinds-%s" % (k.q, meth, x), used <= {x}, found=ast.unparse(st), required="%s re-bound only to an upgrade of itself" % x,
+                           mod=k.mod, node=st, sig="rebind-" + x)
             n += 1
     return n
 
@@ -278,6 +297,6 @@ def check(ctx):
     check_permutation(ctx)
     check_factories(ctx)
     ctx.floor("R10.1", 2)
-    ctx.floor("R10.2", 5)
+    ctx.floor("R10.2", 8)
     ctx.floor("R10.3", 6)
     ctx.floor("R10.4", 9)
